@@ -135,6 +135,7 @@ class World:
         self.susp_track = {}      # key -> dict(start_tick, D, pool, cpu, ram, ops, cur)
         self.asg_seen = {}        # id(assignment) -> assignment (accepted)
         self.model_dead = False
+        self.last_reject = None   # reason for which the reference executor refused the last tick's commands (if it did)
         self.exec_call = None     # F6 routes the call to the unwrapped Executor.run_one_tick
 
     # -- helpers -----------------------------------------------------------
@@ -348,6 +349,7 @@ class World:
             self.model_dead = True
             self.ambiguous = True
             return
+        self.last_reject = rej.reason if rej is not None else None
         if rej is not None:
             self.stats["rejected"] += 1
             if exc is None:
@@ -464,6 +466,18 @@ class World:
                     self.flag({"C04", "C05"}, "container-memory-mismatch", f"tick {self.tick} container {k}: uses {c.get_current_memory_usage()}, model {float(rc.mem)}")
             if p.get_consumed_ram_gb() != tot and abs(Fr(p.get_consumed_ram_gb()) - tot) > Fr(1, 10**6):
                 self.flag({"C04"}, "reported-usage-mismatch", f"tick {self.tick} pool {pid}: reports {p.get_consumed_ram_gb()}, running containers use {float(tot)}")
+        # the flag schedulers rely on: suspendable exactly at an operator boundary (C10; C12 trusts it)
+        for p in ex.pools:
+            for c in p.active_containers:
+                rc = m.all.get(self.key_of_cid.get(c.container_id))
+                if rc is not None and rc.status == "run":
+                    try:
+                        flag = bool(c.can_suspend_container())
+                    except Exception:
+                        continue
+                    if flag != bool(rc.boundary):
+                        self.flag({"C10"}, "can-suspend-flag-wrong", f"tick {self.tick} container {rc.key}: can_suspend_container() says {flag}, "
+                                  f"model: {'at' if rc.boundary else 'not at'} an operator boundary (position {rc.pos}/{len(rc.tl)})")
         for s in sus:
             k = self.key_of_cid.get(s.container_id)
             rc = m.all.get(k)
